@@ -28,6 +28,7 @@ import fnmatch
 import hashlib
 import json
 import random
+import time
 from collections import Counter
 
 from vlib import core, pool
@@ -574,12 +575,12 @@ def plan_cases(run) -> list[dict]:
     cases = []
     # (shape, page sizes, weight, enumerate faults?)
     if run.quick:
-        mix = [("tiny", 26, True), ("small", 30, True), ("medium", 9, True), ("deep", 9, True), ("wide", 7, True), ("large", 5, False)]
-        n_frac, n_over = 8, 6
+        mix = [("tiny", 16, True), ("small", 18, True), ("medium", 4, True), ("deep", 4, True), ("wide", 3, True), ("large", 4, False)]
+        n_frac, n_over = 5, 4
     else:
-        mix = [("tiny", 120, True), ("small", 160, True), ("medium", 70, True), ("deep", 60, True), ("wide", 45, True), ("large", 16, False),
-               ("large", 3, True)]
-        n_frac, n_over = 40, 30
+        mix = [("tiny", 80, True), ("small", 110, True), ("medium", 45, True), ("deep", 40, True), ("wide", 30, True), ("large", 12, False),
+               ("large", 2, True)]
+        n_frac, n_over = 30, 20
     cid = 0
 
     def recipe(shape):
@@ -866,12 +867,15 @@ def main(run):
     judge = Judge(run)
     cases.sort(key=lambda c: -({"large": 5, "medium": 3, "wide": 3, "deep": 2}.get(c["lib"]["shape"], 1) * (2 if c["enumerate"] else 0)))
     planned_pairs = 0
+    judge_s = 0.0
     for case, obs in pool.run_cases("checks.c18:work", cases, deadline_s=900 if not run.quick else 120):
         if not isinstance(obs, dict) or obs.get("_died") or obs.get("_timeout") or obs.get("_harness_error") or obs.get("_cpu_exhausted") or "runs" not in obs:
             run.inconclusive_cases += 1
             run.inconclusive(f"library {case['lib']} not observed: {str(obs)[:300]}")
             continue
+        tj = time.time()
         judge.case(case, obs)
+        judge_s += time.time() - tj
         if case["enumerate"]:
             planned_pairs += sum(len(ro["seq"]) for ro in obs["runs"] if "recs" in ro) * len(G.ALL_KINDS)
     judge.finish(by_cid)
@@ -890,18 +894,19 @@ def main(run):
         "request_positions": c["request_positions"], "fault_kinds": len(G.ALL_KINDS), "pairs_planned": planned_pairs, "pairs_executed": c["pairs_executed"],
         "responses_opened": c["responses_opened"], "responses_released": c["responses_released"],
         "complete_per_listing_run": planned_pairs == c["pairs_executed"]}
+    run.extras["parent_judge_seconds"] = round(judge_s, 1)
     run.exhaustive = False
     run.require("pairs_executed_equals_planned", int(planned_pairs == c["pairs_executed"]), 1)
-    run.require("pairs_executed", c["pairs_executed"], run.n(20000, 150000))
+    run.require("pairs_executed", c["pairs_executed"], run.n(20000, 200000))
     run.require("request_kind_x_fault_kind_combinations", len(LABELS) * len(G.ALL_KINDS) - len(missing), len(LABELS) * len(G.ALL_KINDS))
-    run.require("libraries", c["libraries"], run.n(80, 400))
-    run.require("paged_listing_runs", judge.tag_runs["paged"], run.n(100, 500))
+    run.require("libraries", c["libraries"], run.n(50, 300))
+    run.require("paged_listing_runs", judge.tag_runs["paged"], run.n(50, 400))
     run.require("files_exactly_at_a_bound", c["files_exactly_at_a_bound"], run.n(20, 100))
-    run.require("named_drive_runs", judge.tag_runs["named-drive"], run.n(20, 100))
-    run.require("quoted_folder_path_runs", judge.tag_runs["quoted-folder-path"], run.n(20, 100))
+    run.require("named_drive_runs", judge.tag_runs["named-drive"], run.n(15, 100))
+    run.require("quoted_folder_path_runs", judge.tag_runs["quoted-folder-path"], run.n(12, 100))
     run.require("max_depth_seen", c["max_depth_seen"], 5)
     run.require("max_children_seen", c["max_children_seen"], 12)
-    run.require("risky_fraction_runs", judge.tag_runs["bound:fraction-at-bound"], run.n(8, 40))
+    run.require("risky_fraction_runs", judge.tag_runs["bound:fraction-at-bound"], run.n(5, 30))
     run.require("responses_opened", c["responses_opened"], 1000)
 
 
